@@ -1204,10 +1204,10 @@ class Process(StateMachine, persistence.Savable, metaclass=ProcessStateMachineMe
         """
         if not self.paused:
             if self._pausing is not None:
-                # Not going to pause after all
+                # Not going to pause after all. Only the pause is withdrawn: the (cancelled) action is left for
+                # ``step`` to skip, and a kill that has replaced it in the meantime stays in place.
                 self._pausing.cancel()
                 self._pausing = None
-                self._set_interrupt_action(None)
             return True
 
         call_with_super_check(self.on_playing)
@@ -1355,7 +1355,7 @@ class Process(StateMachine, persistence.Savable, metaclass=ProcessStateMachineMe
                 # The process was failed from outside (``fail`` or a failing scheduled callback) while the step was
                 # in flight. A terminal state is final, so the outcome of the step is discarded.
                 pass
-            elif self._interrupt_action:
+            elif self._interrupt_action is not None and not self._interrupt_action.cancelled():
                 self._interrupt_action.run(next_state)
             else:
                 # Everything nominal so transition to the next state
